@@ -10,6 +10,7 @@ def FScalar.toP : FScalar → FlatParse.Scalar
   | .bare s => .word s
   | .bool b => .bool b
   | .null => .null
+  | .int i => .int i (intStr i)
 
 /-- the line as the parser half describes it, at line `l`, column 1. -/
 def FLine.toP (ln : FLine) (l : Nat) : FlatParse.Line :=
